@@ -2059,11 +2059,15 @@ impl<'a> Tokenizer<'a> {
                         (QueEQ, Value::None)
                     }
                     Some(b'/') => {
-                        self.reader.skip();
-                        if self.reader.skip_if(b'=')? {
+                        // `?/=` only; in `?/* comment */` or `? / x` the slash belongs to what follows
+                        let mut lookahead = self.reader.clone();
+                        lookahead.skip();
+                        if matches!(lookahead.peek(), Ok(Some(b'='))) {
+                            self.reader.set_to(&lookahead);
+                            self.reader.skip();
                             (QueNE, Value::None)
                         } else {
-                            illegal_token!();
+                            (Que, Value::None)
                         }
                     }
                     Some(b'<') => {
